@@ -58,3 +58,16 @@ Check (C07_av1_parser_skips_other_obus : (forall (s : seq_hdr) (pre : list (N * 
 Check (C07_av1_monochrome_chroma_position_refuted : (exists s, valid_seq s = true /\ cc_mono_chrome (sh_color s) = true /\
             exists c, extract_av1_config (seq_obu None s) = Some c /\ av1_chroma_sample_position c <> 0)%type).
 Check (C07_av1_monochrome_header_rejected_refuted : (exists s, valid_seq s = true /\ cc_mono_chrome (sh_color s) = true /\ extract_av1_config (seq_obu None s) = None)%type).
+Check (C07_finished_file_carries_stream_configuration : (forall b m0 ops m rs s,
+  build b [] = inl m0 -> run m0 ops = (m, rs) -> In (RStats s) rs ->
+  Forall op_payload_ok ops -> len (sink_of m) < 4294967296 ->
+  (cfg_codec b = H264 \/ cfg_codec b = H265) ->
+  (match cfg_audio b with Some a => at_channels a < 65536 | None => True end) ->
+  (match first_key_of (accepted b ops (map class_of rs)) with
+   | Some d => Forall (fun u => len u < 65536) (spec_units d) | None => True end) ->
+  check_C07 b ops (map class_of rs) (sink_of m) = true)%type).
+Check (C07_oversized_parameter_set_refuted : (~ (forall b m0 ops m rs s, build b [] = inl m0 -> run m0 ops = (m, rs) -> In (RStats s) rs ->
+       Forall op_payload_ok ops -> len (sink_of m) < 4294967296 ->
+       (cfg_codec b = H264 \/ cfg_codec b = H265) ->
+       (match cfg_audio b with Some a => at_channels a < 65536 | None => True end) ->
+       check_C07 b ops (map class_of rs) (sink_of m) = true))%type).
